@@ -227,6 +227,12 @@ class C01(Prop):
 
 # =================================================================================== C02
 
+def accepted_but_inconsistent(line):
+    """the harness asserts that DomainName::len() equals the octets of the labels it prints; when that assertion fires the
+    decoder HAS returned a value (an accepted input), whose length bookkeeping is wrong"""
+    return line.startswith("PANIC") and "harness: Debug label extraction disagrees with len()" in line
+
+
 def special_d(rng, tier):
     """D cases shared by the decode-side properties: the targeted streams that other properties grew because a seeded
     change slipped through (limits of labels/names on the wire, nested RDATA pointers at every offset geometry,
@@ -405,6 +411,12 @@ class C03(Prop):
         if case.startswith("W "):
             return None
         d = parse_d(line)
+        if accepted_but_inconsistent(line):
+            e, w = case_wire(case)
+            r = R.ref_decode(e, w)
+            if r[0] != "OK":
+                return "library accepts input the RFC grammar rejects (%s); the returned name's len() disagrees with its labels" % r[1]
+            return None
         if d["status"] != "OK":
             return None      # C03 is one-sided: only accepted inputs are judged (a panic is C01's subject)
         e, w = case_wire(case)
@@ -816,6 +828,25 @@ def overlong_via_pointer():
             over.append(S.d("Dns", msg_wire(qd=[q1, q2])))
     over.append(S.d("DomainName", b"\xc0\x02" + b"\x01a" * 200 + b"\x00"))
     over.append(S.d("DomainName", b"\x01b\xc0\x04" + b"\x01a" * 127 + b"\x00"))
+    # the same limits with labels of multi-octet characters (the limits count OCTETS, not characters): names of
+    # 250..=262 and of 300, 450, 830 wire octets whose labels are runs of 2-, 3- and 4-octet characters, plain, as the
+    # target of a pointer, and split into literal prefix + pointer
+    for ch in ("\u00e9".encode(), "\u20ac".encode(), "\U0001f600".encode()):
+        w = len(ch)
+        per = (63 // w) * w                     # longest label of whole characters
+        for total in list(range(250, 263)) + [300, 450, 830]:
+            body, left = b"", total - 1
+            while left > w:
+                k = min(per, ((left - 1) // w) * w)
+                body += bytes([k]) + ch * (k // w)
+                left -= k + 1
+            body += b"\x01a" * (left // 2)
+            name = body + b"\x00"
+            over.append(S.d("DomainName", name))
+            over.append(S.d("Dns", msg_wire(qd=[name + b"\x00\x01\x00\x01"])))
+            over.append(S.d("DomainName", b"\xc0\x02" + name))
+            first = 1 + body[0]
+            over.append(S.d("Dns", msg_wire(qd=[name[first:] + b"\x00\x01\x00\x01", name[:first] + b"\xc0\x0c\x00\x01\x00\x01"])))
     run = b"\x01a" * 3000 + b"\x00"
     fanq = [run + b"\x00\x01\x00\x01"] + [struct.pack(">H", 0xC000 | (12 + 2 * i)) + b"\x00\x01\x00\x01" for i in range(0, 300)]
     over.append(S.d("Dns", msg_wire(qd=fanq)))
@@ -928,6 +959,12 @@ class C07(Prop):
 
     def oracle(self, case, line):
         d = parse_d(line)
+        if accepted_but_inconsistent(line):
+            e, w = case_wire(case)
+            r = R.ref_decode(e, w)
+            if r[0] != "OK":
+                return "accepted a name the reference expansion rejects (%s); the returned name's len() disagrees with its labels" % r[1]
+            return None
         if d["status"] == "PANIC":
             if "octet budget exceeded" in line:
                 return "decoder exceeded the octet budget (loop or super-linear work): " + line[:200]
